@@ -22,7 +22,7 @@ ERR = {'ValueError': 1, 'TypeError': 2, 'KeyError': 3, 'IndexError': 4}
 CMP = {'Lt': '<?', 'LtE': '<=?', 'Gt': '>?', 'GtE': '>=?'}
 
 PINNED = {
-    # the tree the model was transcribed from: /repo at 08a7b16 (all five C13 repairs in)
+    # the tree the model was transcribed from: /repo at ef55647 (all six C13 repairs in)
     'CustomHyper.custom_apply': '9cd5df790b3069159793',
     'Float.custom_apply': 'b9d549648c0d242c2e2b',
     'ManyOf.custom_apply': '34158237d83d27ae63c3',
@@ -38,7 +38,7 @@ PINNED = {
     'ObjectTemplate._decode': 'a39444c427ce37c80b11',
     'ObjectTemplate._parse_generators': 'b486fec6d31c0da77af3',
     'ObjectTemplate.dna_spec': 'f086917682616db8313e',
-    'ObjectTemplate.encode': '024fc327e9231790e70f',
+    'ObjectTemplate.encode': '9961b374772d11e0ac82',
     'ObjectTemplate.try_encode': '82fbf793a0622848a49e',
     'OneOf._decode': '85d13f62929400ca2db8',
     'OneOf.encode': '21a387e043c54ff8e50e',
